@@ -268,7 +268,7 @@ fn c04_variant<V: Variant>(ctx: &Ctx, rep: &mut Report) {
 }
 
 pub fn run_c04(ctx: &Ctx, rep: &mut Report) {
-    rep.rule = "seeded hash values of all five variants (any byte pattern; strict-valid ones in strict-parser builds) plus all 256 values at every byte position: Display / to_string / store_into_str_bytes (both prefixes) compared with the canonical text model, length and charset checked, parsed back through FromStr / from_str_with / from_str_bytes x {None, Empty, WithVersion}; random-case / optional-prefix spellings must re-format to the canonical upper-case prefixed form; distinct by fingerprint of (variant, value)".into();
+    rep.rule = "seeded hash values of all five variants (any byte pattern; strict-valid ones in strict-parser builds) plus all 256 values at every byte position: Display / to_string / store_into_str_bytes (both prefixes) compared with the canonical text model, length and charset checked, parsed back through FromStr / from_str_with / from_str_bytes x {None, Empty, WithVersion}; random-case / optional-prefix spellings must re-format to the canonical upper-case prefixed form; near misses of accepted strings (a quarter aimed at the prefix characters) parsed in all three prefix modes: whatever a mode accepts must have the canonical shape for that mode and re-format canonically; distinct by fingerprint of (variant, value)".into();
     all_variants!(c04_variant, ctx, rep);
     rep.floor("c04:positions_enumerated", 1);
 }
@@ -531,7 +531,7 @@ fn c05_variant<V: Variant>(ctx: &Ctx, rep: &mut Report) {
 }
 
 pub fn run_c05(ctx: &Ctx, rep: &mut Report) {
-    rep.rule = "byte strings for all five variants x 3 prefix modes x 3 parse entry points: every position of accepted strings (with and without prefix, mixed case) substituted with all 256 byte values; all 256 x 256 two-byte combinations at every header digit pair and at body pairs (every pair for the 48-bucket variant); every length 0..=2*LEN+2 with random / hex / look-alike content and T1,t1,T2 prefixes; seeded byte soups and near-valid strings; acceptance, value and error kind compared with the codec model (set of applicable errors; wrong length => length error); panics are violations; distinct by construction (enumerated) or fingerprint".into();
+    rep.rule = "byte strings for all five variants x 3 prefix modes x 3 parse entry points: every position of accepted strings (with and without prefix, mixed case) substituted with all 256 byte values; all 256 x 256 two-byte combinations at every header digit pair and at body pairs (every pair for the 48-bucket variant); every length 0..=2*LEN+2 with random / hex / look-alike content and T1,t1,T2 prefixes; seeded byte soups and near-valid strings; acceptance, value and error kind compared with the codec model (set of applicable errors; wrong length => length error); panics are violations; accepted spellings decorated with line terminators, blanks, NUL, quotes, BOM, sign, radix / doubled prefix, separators; distinct by construction (enumerated) or fingerprint".into();
     all_variants!(c05_variant, ctx, rep);
     rep.floor("parse:accepted", 100);
     rep.floor("parse:err:InvalidStringLength", 100);
@@ -732,7 +732,7 @@ fn c06_variant<V: Variant>(ctx: &Ctx, rep: &mut Report) {
 }
 
 pub fn run_c06(ctx: &Ctx, rep: &mut Report) {
-    rep.rule = "seeded byte arrays of all five variants (any pattern) plus all 256 values at every byte position and slices of every length 0..=2N, through TryFrom<&[u8]> and TryFrom<&[u8;N]>: acceptance vs the model, store_into_bytes round trip, every accessor (checksum, length, Q ratios, body, quartile(i) for all i), hex form = nibble-swapped header + body, clear_checksum; distinct by fingerprint of (variant, bytes)".into();
+    rep.rule = "seeded byte arrays of all five variants (any pattern) plus all 256 values at every byte position and slices of every length 0..=2N, through TryFrom<&[u8]> and TryFrom<&[u8;N]>: acceptance vs the model, store_into_bytes round trip, every accessor (checksum, length, Q ratios, body, quartile(i) for all i), hex form = nibble-swapped header + body, clear_checksum; one value in eight stored with store_into_bytes into a longer (+1..+200) or shorter buffer, judged by the C14 buffer oracle; distinct by fingerprint of (variant, bytes)".into();
     all_variants!(c06_variant, ctx, rep);
     rep.floor("bytes:accepted", 100);
     rep.floor("bytes:err:InvalidStringLength", 10);
@@ -857,7 +857,7 @@ fn c14_variant<V: Variant>(ctx: &Ctx, rep: &mut Report) {
 }
 
 pub fn run_c14(ctx: &Ctx, rep: &mut Report) {
-    rep.rule = "seeded hash values of all five variants x 3 forms (binary, hex, hex+prefix) x buffer lengths 0..=N+64 (dense around N; N+4096 in the thorough tier) x 3 prior contents; the buffer is an inner slice of a larger allocation with guard bytes on both sides; result, written prefix (vs the codec model), untouched remainder and guards are checked; distinct by fingerprint of (variant, value)".into();
+    rep.rule = "seeded hash values of all five variants x 3 forms (binary, hex, hex+prefix) x buffer lengths 0..=N+64 (dense around N; N+4096 in the thorough tier) x 3 prior contents; the buffer is an inner slice of a larger allocation with guard bytes on both sides; result, written prefix (vs the codec model), untouched remainder and guards are checked; buffers pre-filled with zero / 0xA5 / random / running lower-case text / 0xFF; distinct by fingerprint of (variant, value)".into();
     all_variants!(c14_variant, ctx, rep);
     rep.floor("buffer:too_small", 100);
     rep.floor("buffer:sufficient", 100);
